@@ -1241,32 +1241,64 @@ func ruleTabDynamics(c *Ctx) {
 		}
 		c.checkInjective("op."+v.Name(), m, pos)
 	}
-	if m, v, pos := c.mapTable("op", "map[op.DynamicSign]op.Velocity", "dynamicSignVelocityMap"); m != nil {
-		got := map[string]int64{}
-		for _, e := range m.Entries {
-			n, _ := asInt(e.V)
-			got[e.K.vstr()] = n
-			c.site(1)
+	// velocities: what DynamicSign.Velocity yields for each sign, whether it reads a table or computes a closed form
+	got, pos, how := c.velocityBySign()
+	if got == nil {
+		c.undec("op.DynamicSign.Velocity", pos, "", how)
+		return
+	}
+	prev := int64(0)
+	for _, sg := range signs {
+		c.site(1)
+		n, ok := got[sg.name]
+		key := "op.DynamicSign.Velocity|" + sg.name
+		switch {
+		case !ok || n == 0:
+			c.bad(key, pos, "", sg.name+" has no velocity: notes under this dynamic are silent (velocity 0)")
+		case n < 1 || n > 127:
+			c.bad(key, pos, "", fmt.Sprintf("%s has velocity %d, outside 1..127", sg.name, n))
+		case n <= prev:
+			c.bad(key, pos, "", fmt.Sprintf("%s has velocity %d, not louder than the softer sign before it (%d)", sg.name, n, prev))
+		default:
+			c.ok(key, pos, "", fmt.Sprintf("%s = %d (%s)", sg.name, n, how))
 		}
-		prev := int64(0)
-		for _, sg := range signs {
-			n, ok := got[sg.name]
-			key := "op." + v.Name() + "|" + sg.name
-			switch {
-			case !ok:
-				c.bad(key, c.pos(pos), "", sg.name+" has no velocity: notes under this dynamic are silent (velocity 0)")
-			case n < 1 || n > 127:
-				c.bad(key, c.pos(pos), "", fmt.Sprintf("%s has velocity %d, outside 1..127", sg.name, n))
-			case n <= prev:
-				c.bad(key, c.pos(pos), "", fmt.Sprintf("%s has velocity %d, not louder than the softer sign before it (%d)", sg.name, n, prev))
-			default:
-				c.ok(key, c.pos(pos), "", fmt.Sprintf("%s = %d", sg.name, n))
-			}
-			if ok {
-				prev = n
-			}
+		if ok {
+			prev = n
 		}
 	}
+}
+
+// velocityBySign evaluates op.DynamicSign.Velocity on every declared sign by constant folding (a table lookup and a
+// closed form are treated alike); it falls back to reading the velocity table literal when the method does not fold.
+func (c *Ctx) velocityBySign() (map[string]int64, string, string) {
+	fn := c.fn("op", "DynamicSign.Velocity")
+	enum := c.enumConsts("op", "DynamicSign")
+	if fn != nil && len(enum) > 0 {
+		got := map[string]int64{}
+		okAll := true
+		for name, k := range enum {
+			r, err := c.newFolder().foldCall(fn, []fval{{k: constant.MakeInt64(k), t: fn.Params[0].Type()}})
+			if err != nil || r.k == nil || r.k.Kind() != constant.Int {
+				okAll = false
+				break
+			}
+			n, _ := constant.Int64Val(r.k)
+			got[name] = n
+		}
+		if okAll {
+			return got, c.pos(fn.Pos()), "folded from DynamicSign.Velocity"
+		}
+	}
+	m, v, pos := c.mapTable("op", "map[op.DynamicSign]op.Velocity", "dynamicSignVelocityMap")
+	if m == nil {
+		return nil, "", "DynamicSign.Velocity does not fold to constants and no velocity table literal was found"
+	}
+	got := map[string]int64{}
+	for _, e := range m.Entries {
+		n, _ := asInt(e.V)
+		got[e.K.vstr()] = n
+	}
+	return got, c.pos(pos), "table " + v.Name()
 }
 
 // ---------------------------------------------------------------------------
@@ -1347,14 +1379,8 @@ func ruleTabDefaults(c *Ctx) {
 			c.undec("play.defaultVelocity", c.pos(v.Pos()), "", err.Error())
 		} else {
 			name := val.vstr()
-			has := false
-			if m, _, _ := c.mapTable("op", "map[op.DynamicSign]op.Velocity", "dynamicSignVelocityMap"); m != nil {
-				for _, e := range m.Entries {
-					if e.K.vstr() == name {
-						has = true
-					}
-				}
-			}
+			vel, _, _ := c.velocityBySign()
+			has := vel[name] > 0
 			c.check(has && name != "UnknownDynamicSign", "play.defaultVelocity", c.pos(pos), "", "default dynamic "+name+" has a velocity", fmt.Sprintf("default dynamic %s has no velocity row: notes before the first `velocity` are silent", name))
 		}
 	} else {
